@@ -41,6 +41,28 @@ void UseOptional(const T& v, const U& u) {
   (void)r;
 }
 
+// An error enum whose None is NOT its zero enumerator (the library only requires an enumerator named None).
+enum class Err2 { A = 0, None = 3, B = 7 };
+
+template <typename Err, typename T>
+void UseResultE(const T& v) {
+  Result<Err, T> a;
+  Result<Err, T> b{v};
+  Result<Err, T> c{T{v}};
+  Result<Err, T> d{b};
+  Result<Err, T> e{std::move(c)};
+  Result<Err, T> f{Err::A};
+  a = b;
+  a = std::move(d);
+  a = v;
+  a = T{v};
+  a = Err::B;
+  (void)a.has_value(); (void)a.has_error(); (void)static_cast<bool>(a); (void)a.error();
+  (void)a.get(); (void)a.take();
+  const Result<Err, T>& ca = a; (void)ca.get();
+  a.clear();
+}
+
 template <typename T>
 void UseResult(const T& v) {
   Result<Err, T> a;
@@ -107,7 +129,64 @@ void UseVariant3() {
   const V& ca = a; (void)ca.get<std::string>(); (void)ca.get<2>();
   a.Visit([](auto&&) {});
   ca.Visit([](const auto&) {});
-  (void)d; (void)e; (void)g;
+  a = "converted"; V x{"converted"};
+  (void)d; (void)e; (void)g; (void)x;
+}
+
+struct Tracked2 {
+  Tracked2() {}
+  Tracked2(const Tracked2&) {}
+  Tracked2(Tracked2&&) {}
+  Tracked2& operator=(const Tracked2&) { return *this; }
+  Tracked2& operator=(Tracked2&&) { return *this; }
+  ~Tracked2() {}
+};
+
+// Arity 1: the terminal Union<Type> is the top-level storage.
+void UseVariant1() {
+  using V = Variant<Tracked>;
+  V a; V b{Tracked{}}; V c{EmptyVariant{}}; V d{b}; V e{std::move(b)};
+  a = d; a = std::move(e); a = Tracked{}; const Tracked ct; a = ct; a = EmptyVariant{};
+  a.Become(0); a.Become(1); a.Become(-1);
+  (void)a.index(); (void)a.empty(); (void)a.is<Tracked>(); (void)a.get<Tracked>(); (void)a.get<0>();
+  const V& ca = a; (void)ca.get<Tracked>(); (void)ca.get<0>();
+  a.Visit([](auto&&) {});
+  ca.Visit([](const auto&) {});
+  (void)c;
+}
+
+// Arity 2 with a converting source type.
+void UseVariant2() {
+  using V = Variant<std::string, Tracked>;
+  V a; V b{std::string{"x"}}; V c{Tracked{}}; V d{EmptyVariant{}}; V e{b}; V f{std::move(c)}; V g{"converted"};
+  a = b; a = std::move(e); a = std::string{"y"}; a = Tracked{}; a = "converted"; a = EmptyVariant{};
+  const std::string cs{"z"}; a = cs; const Tracked ct; a = ct;
+  a.Become(0); a.Become(1); a.Become(2); a.Become(-1);
+  (void)a.index(); (void)a.empty(); (void)a.get<std::string>(); (void)a.get<Tracked>(); (void)a.get<0>(); (void)a.get<1>();
+  const V& ca = a; (void)ca.get<std::string>(); (void)ca.get<1>();
+  a.Visit([](auto&&) {});
+  ca.Visit([](const auto&) {});
+  (void)d; (void)f; (void)g;
+}
+
+// Arity 4: the converting source lands on the last alternative, and a smaller Variant converts into it.
+void UseVariant4() {
+  using V = Variant<Tracked, std::vector<int>, Tracked2, std::string>;
+  V a; V b{std::string{"x"}}; V c{std::vector<int>{1}}; V d{Tracked{}}; V d2{Tracked2{}}; V e{EmptyVariant{}}; V f{b}; V g{std::move(c)};
+  V h{"converted"};
+  Variant<std::string, Tracked2> small{std::string{"s"}}; Variant<std::string, Tracked2> small2{Tracked2{}};
+  Variant<std::string, Tracked2> small0;
+  V i{small}; V j{std::move(small2)}; V k{small0}; (void)k;
+  a = b; a = std::move(f); a = std::string{"y"}; a = std::vector<int>{2}; a = Tracked{}; a = Tracked2{}; a = "converted"; a = EmptyVariant{};
+  const std::string cs{"z"}; a = cs; const Tracked2 ct; a = ct;
+  a.Become(0); a.Become(1); a.Become(2); a.Become(3); a.Become(4); a.Become(-1);
+  (void)a.index(); (void)a.empty();
+  (void)a.get<std::string>(); (void)a.get<std::vector<int>>(); (void)a.get<Tracked>(); (void)a.get<Tracked2>();
+  (void)a.get<0>(); (void)a.get<1>(); (void)a.get<2>(); (void)a.get<3>();
+  const V& ca = a; (void)ca.get<std::string>(); (void)ca.get<2>();
+  a.Visit([](auto&&) {});
+  ca.Visit([](const auto&) {});
+  (void)d; (void)d2; (void)e; (void)g; (void)h; (void)i; (void)j;
 }
 
 void UseHandles() {
@@ -139,7 +218,8 @@ void All() {
   UseOptional<Cmp, int>(Cmp{1}, 2);
   UseResult<std::string>(std::string{"a"});
   UseResult<int>(1);
-  UseResultVoid(); UseVariant(); UseVariant3(); UseHandles(); UseEntry();
+  UseResultE<Err2, std::string>(std::string{"a"});
+  UseResultVoid(); UseVariant(); UseVariant3(); UseVariant1(); UseVariant2(); UseVariant4(); UseHandles(); UseEntry();
 }
 
 // Every non-template member of the recursive union, whether or not Variant currently routes through it: coverage of
